@@ -11,6 +11,16 @@ Local Open Scope Z_scope.
    every token-level check of the receiver (tasters with the 2^31 and 2^(8*maxBytes) splits of the TRANSLATED sendToken,
    checkOpentype, setConstraint hand-down, list/set/dict "full" tests, tuple arity, the 6*maxLength text bound) accepts
    every token of the honest serialization and the very same object is delivered. *)
+(* SCOPE of owf (hypothesis of every theorem below): it is false for two kinds of value that the property's quantifier
+   includes, so the theorems say nothing about them:
+   - ORemote (a value in a RemoteInterface slot): the model has the RECEIVER's view only (claimed interface name vs
+     declared); the sender's side is a live Referenceable judged by interface.providedBy.  For these the full statement is
+     FALSE on the current tree (finding oracle/remote-subinterface-rejected: a Referenceable implementing a SUB-interface of
+     the declared RemoteInterface passes the outbound check and is refused by the inbound `iface != self.interface`);
+     covered by the direct oracle only.
+   - OPending (cyclic values such as l = [l] under ListOf(Any)): the honest serialization of a cycle is a reference to a
+     container that is still open (WRefOpen / WRef (OPending k)); recvw models their reception (C02 uses it), but ser and
+     slice describe acyclic values only. *)
 Theorem C12_sender_accepts_receiver_delivers : forall voc c o,
   wf c = true -> owf o = true -> c12_guard c o = true -> checkObject c o = true ->
   recvw (Some c) (slice voc o) = RDeliver o.
@@ -34,13 +44,31 @@ Theorem C12_reference_accepted : forall c o,
 Proof. exact ref_ok. Qed.
 Print Assumptions C12_reference_accepted.
 
-(* the same for a whole call of a one-argument method: callRemote's outbound checkAllArgs, the wire, ArgumentUnslicer,
-   the inbound checkAllArgs in _doCall, and the invocation with the same object *)
-Theorem C12_call_delivered : forall voc c o,
-  wf c = true -> owf o = true -> c12_guard c o = true ->
-  forall p k, send_call voc (ms1 c) [o] [] = Some (p, k) -> recv_call (ms1 c) p k = CInvoke [o] [].
-Proof. exact c12_call1. Qed.
+(* the same for a whole call of ANY method schema (any number of arguments, Optional ones, either unknown-argument flag)
+   with any mix of positional and keyword arguments: callRemote's outbound checkAllArgs, the wire, ArgumentUnslicer's
+   per-argument constraints (positional and keyword bookkeeping), the inbound checkAllArgs in _doCall, and the invocation
+   with the same objects.  ms_wf: distinct argument names, well-formed constraints; args_guarded: c12_guard for every
+   bound value against the constraint of the name it is bound to. *)
+Theorem C12_call_delivered : forall voc ms a kw, ms_wf ms -> args_guarded ms a kw ->
+  forall p k, send_call voc ms a kw = Some (p, k) -> recv_call ms p k = CInvoke a kw.
+Proof. exact c12_call. Qed.
 Print Assumptions C12_call_delivered.
+
+(* ... stated on the children of the `arguments` sequence as the receiver's state machine consumes them *)
+Theorem C12_call_delivered_stream : forall voc ms a kw, ms_wf ms -> args_guarded ms a kw ->
+  forall p k kb, send_call voc ms a kw = Some (p, k) -> code_kws kb = k ->
+  recv_arguments ms (enc_args p kb) = CInvoke a kw.
+Proof. exact c12_call_stream. Qed.
+Print Assumptions C12_call_delivered_stream.
+
+(* "(and symmetrically for results)": a result that passes the check the target's Broker applies before sending
+   (methodSchema.checkResults(res, False) in _callFinished) is accepted by the caller's AnswerUnslicer under the same
+   result constraint, and the callRemote callback receives it *)
+Theorem C12_result_delivered : forall voc ms c o w,
+  ms_resp ms = Some c -> wf c = true -> owf o = true -> c12_guard c o = true ->
+  send_answer voc ms o = Some w -> recv_answer (Some c) w = Callback o.
+Proof. exact c12_result. Qed.
+Print Assumptions C12_result_delivered.
 
 (* The full statement (without c12_guard) is FALSE on the current tree; each excluded region has its witness: *)
 Theorem C12_refuted_choice :        (* D7a, oracle/choiceof-container-drops-connection *)
